@@ -163,9 +163,17 @@ def sample_of(case, res):
     return s
 
 
+def quiet():
+    import logging
+    import warnings
+    logging.disable(logging.CRITICAL)
+    warnings.simplefilter("ignore")
+
+
 def shard_main(args):
     modname, tier, seed, shard, nshards, n_examples = args
     st = Shard()
+    quiet()
     try:
         mod = importlib.import_module(modname)
         known = load_known(mod.ID)
@@ -279,6 +287,7 @@ def main(argv=None):
     except ValueError:
         seed = 1
     t0 = time.time()
+    quiet()
     sys.path[:] = [p for p in sys.path if p not in ("", ".")]
     try:
         import ebpfcat
